@@ -106,6 +106,8 @@ class Check(BaseCheck):
             specs.append({'campaign': 'nested', 'seed': seed, 'n': 90 if q else 2500, 'i': i})
         for i in range(16 if q else 48):
             specs.append({'campaign': 'threads', 'seed': seed, 'i': i, 'runs': 3 if q else 12, 'evals': 180 if q else 600})
+        for i in range(6 if q else 24):
+            specs.append({'campaign': 'coldstart', 'seed': seed, 'i': i, 'threads': [2, 4, 8][i % 3], 'p_yield': [0.02, 0.2, 0][i % 3] if i % 6 < 3 else 0.1, 'formulas': 300 if q else 1200})
         specs.append({'campaign': 'rendezvous', 'seed': seed, 'rounds': 4 if q else 40})
         specs.append({'campaign': 'crowd', 'seed': seed, 'sizes': [8, 100, 300] if q else [8, 70, 100, 300, 600], 'address_space_gb': 96})
         return specs
@@ -543,6 +545,70 @@ class Check(BaseCheck):
                         return
                     else:
                         rec.inconcl('rendezvous of two callbacks (%s, %s) did not happen within 60 s and the other thread kept moving' % (ka, kb))
+
+    def c_coldstart(self, spec, rec):
+        """The FIRST use of everything, concurrently.  The other thread campaigns compute solo outcomes first, which also warms every lazily
+        built table and cache of the process; here a fresh worker process starts its threads at once - each builds its own parser and
+        evaluates the same list (every deterministic function, the fixed probes) in the same order under yield injection, so that first uses
+        collide - and the solo outcomes are computed afterwards."""
+        hotxlfp = env.load()
+        from . import c02 as C02
+        import random, re
+        fs = [f for f in C02.Check().order_formulas(spec['seed'], 4) if len(f) < 120 and re.match(r'[A-Z][A-Z0-9.]*\(', f)]
+        random.Random('cold:%s:%s' % (spec['seed'], spec['i'])).shuffle(fs)
+        fs = fs[:spec['formulas']] + ['ROMAN(1999)', 'ROMAN(499,1)', 'ROMAN(45,2)', 'ROMAN(999,3)', 'ROMAN(3999,4)', 'ARABIC("MCMXC")', 'BASE(255,16)', 'DEC2HEX(255)', 'DECIMAL("FF",16)',
+                                       'DATE(2020,2,29)+1', 'EDATE(DATE(2020,1,31),1)', 'WEEKDAY(DATE(2020,1,1))', 'TEXTJOIN(",",TRUE,"a","b")', 'SUBSTITUTE("banana","an","x",2)',
+                                       'MATCH("b*",{"ab","bc"},0)', 'COUNTIF({1,2,3},">1")', 'SUMIFS({1,2,3},{1,2,3},">1")', 'INDEX({1,2;3,4},2,1)', 'LARGE({3,1,2},2)', 'PV(0.05,10,-100)',
+                                       'A1+B2', 'SUM(A1:B2)', 'foo', '1<2', '"a"&1', '-{1,2}', '{1,2}+{3,4}', '1/0', 'nosuch', 'NOSUCH(1)', '#N/A', '12%', '2^10']
+        random.Random('cold2:%s:%s' % (spec['seed'], spec['i'])).shuffle(fs)
+        nthreads = spec['threads']
+        inj = probe.YieldInjector(spec['p_yield'], 'cold:%s:%s' % (spec['seed'], spec['i'])) if spec['p_yield'] else None
+        results, start = {}, threading.Barrier(nthreads)
+        step = threading.Barrier(nthreads)
+        old_switch = sys.getswitchinterval()
+        sys.setswitchinterval(1e-6)
+
+        def work(t):
+            if inj is not None:
+                inj.enroll(t)
+            start.wait()
+            p = hotxlfp.Parser()
+            out = []
+            for f in fs:
+                try:
+                    step.wait(60)          # lockstep: every thread makes the process's first call of this function at the same moment
+                except threading.BrokenBarrierError:
+                    pass
+                out.append(outcome(p.parse(f)))
+            results[t] = out
+        try:
+            if inj is not None:
+                inj.start()
+            try:
+                ths = [threading.Thread(target=work, args=(t,)) for t in range(nthreads)]
+                for th in ths:
+                    th.start()
+                for th in ths:
+                    th.join(900)
+            finally:
+                if inj is not None:
+                    inj.stop()
+        finally:
+            sys.setswitchinterval(old_switch)
+        if len(results) != nthreads:
+            rec.inconcl('a cold-start thread did not finish')
+            return
+        solo_p = hotxlfp.Parser()
+        solo = [outcome(solo_p.parse(f)) for f in fs]
+        for t in range(nthreads):
+            for i, f in enumerate(fs):
+                rec.case()
+                if results[t][i] != solo[i]:
+                    rec.violation('C03/evaluation-in-thread-differs-from-solo:first-use-in-the-process', formula=f, thread=t, threads=nthreads, outcome=results[t][i], solo=solo[i],
+                                  position_in_list=i)
+        rec.nt(('coldstart', spec['i']))
+        rec.count('coldstart_evaluations', nthreads * len(fs))
+        rec.count('coldstart_runs')
 
     def c_crowd(self, spec, rec):
         """Many evaluations in flight at the same moment: N threads, each with its own parser, all held inside a host callback until every
